@@ -194,10 +194,14 @@ HARNESSES += [poll_h(1), poll_h(2), poll_h(3), poll_h(4, thorough_only=True)]
 
 HARNESSES += [
     {"name": "reproc_drain", "props": ["C16", "C14"], "src": "h_drain.c", "contracts": ["public.h"],
-     "includes": ["reproc.c", "drain.c"], "replace": ["reproc_poll", "reproc_read", "now"], "loop_contracts": True,
-     "defs": {"VERIF_LOOP_CONTRACTS": None, "VERIF_SLIM": None}, "unwind": 12, "enforce": None,
-     "what": "reproc_drain with its for(;;) loop closed by a loop contract over a ghost monitor of the sink protocol; "
-             "reproc_poll and reproc_read replaced by their contracts; sinks may fail at any call; any number of chunks"},
+     "includes": ["reproc.c", "drain.c"], "light": True, "native": False,
+     "defs": {"VERIF_DRAIN_INDUCTION": None}, "unwind": 6,
+     "what": "reproc_drain, unbounded in the number of chunks: the for(;;) loop is closed by induction over a loop "
+             "invariant written out in C through the REPROC_VERIF_LOOP(drain) hook (base case, havoc, assume, one "
+             "arbitrary iteration, step case); reproc_poll and reproc_read are replaced by their contracts by hand "
+             "(assigns havocked, ensures assumed, generated from the contract text); sinks feed a monitor of the "
+             "documented protocol and may fail at any call. Plain CBMC (DFCC's loop-contract instrumentation of this "
+             "function did not finish within 25 minutes)"},
 ]
 
 
